@@ -157,7 +157,7 @@ var valueKinds = []string{"number", "string", "symbol", "character", "list", "ve
 var valueFeats = map[string][]string{
 	"number": {"long-float-digits"},
 	"symbol": {"plain-symbol"},
-	"list":   {"symbol-in-list"},
+	"list":   {"symbol-in-list", "quote-in-list"},
 	"vector": {"empty-vector"},
 }
 
